@@ -8,6 +8,7 @@ import (
 	"fmt"
 	"math"
 	"os"
+	"runtime"
 	"strconv"
 	"strings"
 )
@@ -203,3 +204,20 @@ func verifIteFloat(c bool, a, b float64) float64 {
 	}
 	return b
 }
+
+// ---- concurrency (C15) ----
+
+// verifSchedAll switches the executor to exhaustive schedule exploration (with a bound on
+// preemptions per path). Natively the real scheduler runs.
+func verifSchedAll(maxPreemptions int) {}
+
+// verifYield marks a scheduling point inside a harness callback.
+func verifYield() { runtime.Gosched() }
+
+// verifRaces: number of happens-before data races seen by the executor's detector so far
+// (natively the race detector reports them).
+func verifRaces() int { return 0 }
+
+func verifTrackWrites() {}
+
+func verifWroteInto(root any) bool { return false }
